@@ -284,18 +284,45 @@ def build_inputs(sn):
     return ib, sb, wl, gv
 
 
-def _rows(sn, var):
-    """result variable → list (pixel) of list (wavelength) of floats, + dtype/unit"""
+class ShapeNote(list):
+    """collects remarks about result variables whose dims/shape are not those of the broadcast operands"""
+
+
+def _rows(sn, var, notes=None, what='result'):
+    """result variable → list (pixel) of list (wavelength) of floats.  A result that lacks a dimension of the operands (e.g. a phi
+    without the wavelength dims) is reported in `notes` and broadcast, so that its values can still be compared."""
+    import scipp as sc
+
+    def note(msg):
+        if notes is not None:
+            notes.append(f'{what}: {msg}')
     if sn['layout'] == 'scalar':
+        if var.ndim != 0 or var.bins is not None:
+            note(f'expected a 0-d variable, got dims {var.dims}')
+            return [[float(np.ravel(var.values)[0])]]
         return [[float(var.value)]]
+    npix = len(sn['lam'])
     if sn['layout'] == 'binned':
+        if var.bins is None:
+            note(f'expected binned data with the bin sizes of the wavelength, got a dense variable with dims {var.dims}')
+            per_pixel = np.broadcast_to(np.array(var.values, dtype=np.float64), (npix,)) if var.ndim <= 1 else None
+            if per_pixel is None:
+                raise RuntimeError(f'unexpected dims {var.dims}')
+            return [[float(per_pixel[i])] * len(sn['lam'][i]) for i in range(npix)]
         c = var.bins.constituents
         data = c['data'].values
         b, e = c['begin'].values, c['end'].values
-        return [[float(x) for x in data[b[i]:e[i]]] for i in range(len(b))]
+        rows = [[float(x) for x in data[b[i]:e[i]]] for i in range(len(b))]
+        if [len(r) for r in rows] != [len(r) for r in sn['lam']]:
+            note(f'bin sizes {[len(r) for r in rows]} differ from those of the wavelength {[len(r) for r in sn["lam"]]}')
+        return rows
+    nl = len(sn['lam'][0])
     v = var
-    if 'pixel' not in v.dims or 'wavelength' not in v.dims:
+    if v.bins is not None or not set(v.dims) <= {'pixel', 'wavelength'}:
         raise RuntimeError(f'unexpected dims {v.dims}')
+    if set(v.dims) != {'pixel', 'wavelength'}:
+        note(f'dims {v.dims} lack {sorted({"pixel", "wavelength"} - set(v.dims))} of the broadcast operands')
+        v = sc.broadcast(v, sizes={'pixel': npix, 'wavelength': nl}).copy()
     vals = v.transpose(['pixel', 'wavelength']).values
     return [[float(x) for x in row] for row in vals]
 
@@ -317,12 +344,17 @@ def impl_call(sn, which):
         r = fn(incident_beam=ib, scattered_beam=sb, wavelength=wl, gravity=gv)
     except Exception as e:  # noqa: BLE001
         return _err(e)
-    if which == 'yz':
-        return ('ok', _rows(sn, r), None) + _meta(r)
-    m1, m2 = _meta(r['two_theta']), _meta(r['phi'])
+    notes = ShapeNote()
+    try:
+        if which == 'yz':
+            return ('ok', _rows(sn, r, notes, 'gamma'), None) + _meta(r) + (notes,)
+        m1, m2 = _meta(r['two_theta']), _meta(r['phi'])
+        tt_rows, phi_rows = _rows(sn, r['two_theta'], notes, 'two_theta'), _rows(sn, r['phi'], notes, 'phi')
+    except RuntimeError as e:
+        return 'err:shape:' + str(e)
     if m1 != m2:
-        return ('ok', _rows(sn, r['two_theta']), _rows(sn, r['phi']), 'mixed:' + m1[0] + '/' + m2[0], m1[1] + '/' + m2[1])
-    return ('ok', _rows(sn, r['two_theta']), _rows(sn, r['phi'])) + m1
+        return ('ok', tt_rows, phi_rows, 'mixed:' + m1[0] + '/' + m2[0], m1[1] + '/' + m2[1], notes)
+    return ('ok', tt_rows, phi_rows) + m1 + (notes,)
 
 
 def impl_frame(sn):
@@ -406,6 +438,8 @@ def _cmp_rows(ctx, case, which, impl, model_vals, dt):
         if not _ulp_close(a, b, dt):
             ctx.disagree(case, flat, model_vals, f'{which}: result {k} differs by more than 2 ulp')
             return
+    if len(impl) > 5 and impl[5]:
+        ctx.disagree(case, list(impl[5]), 'dims/shape of the broadcast operands', f'{which}: shape of the result')
     want_dt = dt
     if impl[3] != want_dt or impl[4] != 'rad':
         ctx.disagree(case, [impl[3], impl[4]], [want_dt, 'rad'], f'{which}: dtype/unit of result')
@@ -669,6 +703,14 @@ def check_scenario(ctx, sn, which, count=True):
                 ctx.violation('C04:phi-definition', f'{which}: phi = {ph!r} but atan2(y_d+δ, x_d) = {hp.fmt(sp["phi"])}',
                               _witness(sn, i, j, {'which': which, 'got': ph, 'expected': hp.fmt(sp['phi'], 30), 'path': path}))
                 nviol += 1
+    # shape of the results (after the element-wise comparison, so that a numeric witness comes first)
+    if len(impl) > 5 and impl[5]:
+        for msg in impl[5]:
+            key = 'C04:phi-definition' if msg.startswith('phi') else ('C04:yz-definition' if msg.startswith('gamma') else 'C04:two-theta-shape')
+            ctx.violation(key, f'{which}: {msg} — every wavelength has its own drop δ, so the angle must carry the wavelength dims/bins '
+                          f'(layout {sn["layout"]}, {len(sn["lam"])} pixel(s), wavelengths per pixel {[len(r_) for r_ in sn["lam"]]})',
+                          _witness(sn, 0, 0, {'which': which, 'shape': msg}))
+            nviol += 1
     return nviol
 
 
@@ -755,6 +797,8 @@ def _oracle(ctx, deep):
             if not clearly_tilted(sn):
                 check_scenario(ctx, sn, 'orth')
         check_scenario(ctx, sn, 'yz')
+    # ---- O1a: φ on the general path where the drop matters for the azimuth ---------------------
+    _oracle_phi_generic(ctx, ctx.n(120, 4000) * mult)
     # ---- O1b: every function twice on the same operand objects ------------------------------
     for sn in load_corpus():
         for which in ('public', 'yz', 'generic', 'orth'):
@@ -764,6 +808,53 @@ def _oracle(ctx, deep):
     _oracle_continuity(ctx, ctx.n(150, 6000) * mult)
     # ---- O3: limits, monotonicity, sign of the correction ------------------------------------
     _oracle_limits(ctx, ctx.n(120, 5000) * mult)
+
+
+def _oracle_phi_generic(ctx, n):
+    """tilted incident beams (general implementation), long wavelengths, detectors near the horizontal plane (|y_d| ≲ δ): the
+    azimuth of the raised beam atan2(y_d+δ, x_d) differs from the azimuth of the detected beam atan2(y_d, x_d) by far more than
+    the tolerance, for every wavelength separately"""
+    rng = ctx.rng
+    for _ in range(n):
+        g = gen_gravity(rng)
+        if _norm(g) < 1.0:
+            g = [c * 9.81 / _norm(g) for c in g]
+        gn = _norm(g)
+        gh = [c / gn for c in g]
+        kind, tilt, b1 = gen_b1(rng, g, 'tilt')
+        while abs(tilt) < 1e-6:
+            kind, tilt, b1 = gen_b1(rng, g, 'tilt')
+        dt = rng.choice(['float64', 'float64', 'float32'])
+        layout = rng.choice(['dense1d', 'dense2d', 'binned', 'scalar'])
+        npix = 1 if layout == 'scalar' else rng.randrange(1, 5)
+        b2s = []
+        for _k in range(npix):
+            p = _perp_unit(rng, gh)
+            L = _lu(rng, 1.0, 20.0)
+            yd = rng.choice([0.0, 1e-6, 1e-4, 1e-3, 1e-2, -1e-6, -1e-4, -1e-3, -1e-2]) * L
+            b2s.append([L * p[i] + yd * (-gh[i]) for i in range(3)])
+        lam = lambda: float(np.dtype(dt).type(rng.uniform(8.0, 100.0)))  # noqa: E731
+        if layout == 'dense1d':
+            row = [lam() for _ in range(rng.randrange(2, 5))]
+            lams = [list(row) for _ in range(npix)]
+        elif layout == 'dense2d':
+            nl = rng.randrange(2, 5)
+            lams = [[lam() for _ in range(nl)] for _ in range(npix)]
+        elif layout == 'binned':
+            lams = [[lam() for _ in range(rng.randrange(1, 5))] for _ in range(npix)]
+        else:
+            lams = [[lam()]]
+        sn = {'g': g, 'gu': 'm/s^2', 'b1': [b1], 'b1_kind': ['tilt'], 'tilt': [tilt], 'b1u': 'm', 'b2': b2s, 'du': 'm', 'lam': lams,
+              'lu': 'angstrom', 'dtype': dt, 'layout': layout}
+        decisive = 0
+        for i in range(npix):
+            for j in range(len(lams[i])):
+                sp = spec(sn, i, j)
+                if _angdiff(sp['phi'], sp['phi_0']) > 100 * _tols(sn, sp, 'generic')[1]:
+                    decisive += 1
+        ctx.count('oracle:phi-generic:' + ('decisive' if decisive else 'not-decisive'))
+        for which in ('public', 'generic'):
+            check_scenario(ctx, sn, which)
 
 
 def _snap_var(v):
